@@ -14,7 +14,7 @@ use vpmodel::spec::{mono, ChainSpec};
 pub const DEF: PropDef = PropDef {
     id: "C04",
     level: "exploration",
-    rule: "an active chain plus generated extra index records: header-only records (status VALID_TREE or VALID_HEADER, optionally with FAILED_VALID / FAILED_CHILD / OPT_WITNESS bits; no file fields) at occupied heights and beyond the tip, never-connected stale siblings with data (status 3|8), failed blocks (3|8|32, 5|8|16|64) and reorged-out branches of length 1..3 (status 29) at occupied heights below the tip; each competitor's hash is steered (nonce search) to sort before or after the active block's hash as LevelDB key. csvdump/unspentcsvdump/balances output must equal the reference model of the ACTIVE chain. Open finding D7 (known_findings.json): when the output instead equals, exactly, the prediction 'per height the data-bearing record with the greatest key wins', the case is reported as KNOWN-FINDING; any other deviation is a violation. Non-trivial = at least one data-bearing competitor or header-only record at an occupied height; distinct by (extras multiset, key-order pattern).",
+    rule: "an active chain plus generated extra index records: header-only records (status VALID_TREE or VALID_HEADER, optionally with FAILED_VALID / FAILED_CHILD / OPT_WITNESS bits; no file fields) at occupied heights and beyond the tip, never-connected stale siblings with data (status 3|8), failed blocks (3|8|32, 5|8|16|64) and reorged-out branches of length 1..3 (status 29) at occupied heights below the tip; each competitor's hash is steered (nonce search) to sort before or after the active block's hash as LevelDB key. Runs with and without --verify (--verify only where no competitor is predicted to win, since a delivered competitor fails its successor's prev-hash verification). csvdump/unspentcsvdump/balances output must equal the reference model of the ACTIVE chain. Open finding D7 (known_findings.json): when the output instead equals, exactly, the prediction 'per height the data-bearing record with the greatest key wins', the case is reported as KNOWN-FINDING; any other deviation is a violation. Non-trivial = at least one data-bearing competitor or header-only record at an occupied height; distinct by (extras multiset, key-order pattern).",
     assumptions: &["steady-state index: the active tip is strictly higher than every other record of validity VALID_SCRIPTS", "header-only records carry a header whose version bytes terminate the two VarInts the tool reads past the record fields (true of real headers)"],
     run,
     replay,
@@ -58,6 +58,10 @@ pub struct Case {
     pub chain: ChainSpec,
     pub extras: Vec<Extra>,
     pub cb: Callback,
+    /// run with --verify (only effective when the D7 prediction equals the active chain: a delivered
+    /// competitor would fail the prev-hash verification of its successor)
+    #[serde(default)]
+    pub verify: bool,
 }
 
 pub fn strategy(tier: Tier) -> BS<Case> {
@@ -67,7 +71,11 @@ pub fn strategy(tier: Tier) -> BS<Case> {
     cfg.tx.max_common = 3;
     let extra = (prop_oneof![3 => Just(Kind::HeaderOnly), 3 => Just(Kind::Stale), 1 => Just(Kind::FailedValid), 1 => Just(Kind::FailedChild), 2 => Just(Kind::Reorged)], any::<u16>(), prop_oneof![2 => Just(0u8), 1 => 1u8..5], any::<bool>(), 1u8..=3)
         .prop_map(|(kind, at, beyond, later_key, branch)| Extra { kind, at, beyond, later_key, branch });
-    (gen::chain(&cfg), proptest::collection::vec(extra, 1..=4), proptest::sample::select(vec![Callback::CsvDump, Callback::CsvDump, Callback::UnspentCsvDump, Callback::Balances])).prop_map(|(chain, extras, cb)| Case { chain, extras, cb }).boxed()
+    (gen::chain(&cfg), proptest::collection::vec(extra, 1..=4), proptest::sample::select(vec![Callback::CsvDump, Callback::CsvDump, Callback::UnspentCsvDump, Callback::Balances]), proptest::bool::weighted(0.4)).prop_map(|(mut chain, extras, cb, verify)| {
+        // --verify needs the coin's real genesis block at height 0
+        chain.real_genesis = chain.real_genesis || verify;
+        Case { chain, extras, cb, verify }
+    }).boxed()
 }
 
 /// a competitor of `active` at the same height: other nonce, marked coinbase output
@@ -88,8 +96,16 @@ fn competitor(active: &Block, prev: [u8; 32], later: bool, salt: u32) -> Block {
     b
 }
 
-pub fn check(c: &Case) -> Verdict {
-    let built = c.chain.build();
+pub struct Prepared {
+    pub plan: vpmodel::datadir::Plan,
+    /// candidates[i] = blocks with data at the height of active block i (the active one first)
+    pub candidates: Vec<Vec<Block>>,
+    pub pattern: Vec<String>,
+    pub interesting: bool,
+}
+
+/// the data directory plan of a case: canonical active chain in blk00000.dat, competitors' data in blk00001.dat
+pub fn prepare(c: &Case, built: &vpmodel::spec::Built) -> Prepared {
     let tip = built.tip();
     let n = built.blocks.len();
     let mut plan = canonical_plan(built.coin, &built.blocks);
@@ -150,8 +166,21 @@ pub fn check(c: &Case) -> Verdict {
     if !extra_segs.is_empty() {
         plan.files.push(vpmodel::datadir::PFile { number: 1, name: vpmodel::datadir::blk_name(1, 5), segs: extra_segs, linked: false });
     }
+    Prepared { plan, candidates, pattern, interesting }
+}
+
+pub fn check(c: &Case) -> Verdict {
+    let built = c.chain.build();
+    let tip = built.tip();
+    let n = built.blocks.len();
+    let Prepared { mut plan, candidates, mut pattern, interesting } = prepare(c, &built);
     let w = infra!(World::create("c04", &mut plan));
-    let o = RunOpts::new(built.coin, c.cb);
+    let mut o = RunOpts::new(built.coin, c.cb);
+    // defect prediction (D7): greatest key among the data-bearing records of a height wins
+    let predicted: Vec<(u64, Block)> = candidates.iter().enumerate().map(|(i, cs)| (built.blocks[i].0, cs.iter().max_by_key(|b| b.hash()).unwrap().clone())).collect();
+    let differs = predicted.iter().zip(built.blocks.iter()).any(|(p, a)| p.1.hash() != a.1.hash());
+    let verify = c.verify && !differs && c.chain.base == 0 && c.chain.real_genesis && vpmodel::chain::genesis_block(built.coin).is_some();
+    o.verify = verify;
     let out = infra!(w.run(&o));
     if let Some(v) = timed_out_is_infra(&out) {
         return v;
@@ -160,9 +189,6 @@ pub fn check(c: &Case) -> Verdict {
     let correct = check_callback(c.cb, built.coin, &active, &out, 0);
     let mut known = vec![];
     if let Err(m) = &correct {
-        // defect prediction: greatest key among the data-bearing records of a height wins
-        let predicted: Vec<(u64, Block)> = candidates.iter().enumerate().map(|(i, cs)| (built.blocks[i].0, cs.iter().max_by_key(|b| b.hash()).unwrap().clone())).collect();
-        let differs = predicted.iter().zip(built.blocks.iter()).any(|(p, a)| p.1.hash() != a.1.hash());
         let pr: Vec<(u64, &Block)> = predicted.iter().map(|(h, b)| (*h, b)).collect();
         if d7_listed() && differs && check_callback(c.cb, built.coin, &pr, &out, 0).is_ok() {
             known.push(D7_SIG.to_string());
@@ -171,8 +197,8 @@ pub fn check(c: &Case) -> Verdict {
         }
     }
     pattern.sort();
-    let classes: Vec<String> = pattern.iter().map(|p| format!("extra={}", p)).chain(std::iter::once(format!("cb={}", c.cb.cli()))).chain(std::iter::once(format!("outcome={}", if known.is_empty() { "active-chain" } else { "known-finding-D7" }))).collect();
-    let sample = serde_json::json!({"coin": built.coin.cli(), "tip": tip, "extras": pattern, "callback": c.cb.cli(), "outcome": if known.is_empty() { "active chain delivered" } else { "D7 prediction" }});
+    let classes: Vec<String> = pattern.iter().map(|p| format!("extra={}", p)).chain(std::iter::once(format!("cb={}", c.cb.cli()))).chain(std::iter::once(format!("verify={}", verify))).chain(std::iter::once(format!("outcome={}", if known.is_empty() { "active-chain" } else { "known-finding-D7" }))).collect();
+    let sample = serde_json::json!({"coin": built.coin.cli(), "tip": tip, "extras": pattern, "callback": c.cb.cli(), "verify": verify, "outcome": if known.is_empty() { "active chain delivered" } else { "D7 prediction" }});
     Verdict::Pass(Pass { nontrivial: interesting, key: vpmodel::hashes::fnv64(format!("{:?}|{}|{}", pattern, n, c.cb.cli()).as_bytes()), classes, known, sub_evals: 1, sample: Some(sample), extra_keys: vec![] })
 }
 
